@@ -20,6 +20,7 @@ structure St where
   regs : Array Node := #[]       -- node registers for traverse_from
   last : Option Node := none     -- raw node (real or simulated) returned by the latest traversal
   walk : CState := ⟨Fog.init, [], []⟩   -- state of the concrete fog walk (`Model/Walk.lean`)
+  rr : Hash × HexD.Db := (blankRoot keccak, [])   -- root and database of the raw-level run (`HexRaw.rawOp` threaded)
   deriving Inhabited
 
 def pathStr (p : Path) : String :=
@@ -279,6 +280,32 @@ def step (st : St) (cmd : String) (args : List String) : St × String :=
     | _, _ => bad
   -- raw level: `set`/`delete` of a non-pruning trie on the current database, statement-by-statement
   -- transcription over raw nodes; prints the new root and the database entries added (state unchanged)
+  -- a whole history at raw level, on its own root and database (independent of the world)
+  | "rrnew", [] => ({ st with rr := (blankRoot keccak, []) }, "ok")
+  | "rrop", [k, v] =>
+    match ofHex k with
+    | some k =>
+      let val : Option (Option Bytes) := if v = "none" then some none else (ofHex v).map some
+      match val with
+      | none => bad
+      | some val =>
+        match HexRaw.rawOp keccak st.rr.2 st.rr.1 k val with
+        | .ok (newRoot, st') => ({ st with rr := (newRoot, st'.db) }, s!"root={toHex newRoot}")
+        | .error (.missing h) => (st, s!"exn missing {toHex h}")
+        | .error .invalid => (st, "exn invalid")
+        | .error .fuel => (st, "exn fuel")
+    | none => bad
+  | "rrdb", [] =>
+    let ded := st.rr.2.foldl (fun acc e => if acc.any (fun x => x.1 == e.1) then acc else acc ++ [e]) []
+    (st, joinOr ((sortPairs ded).map fun e => s!"{toHex e.1}:{toHex e.2}") ",")
+  | "rrget", [k] =>
+    match ofHex k with
+    | some k =>
+      (st, match HexD.getD keccak st.rr.2 st.rr.1 (nibs k) with
+        | .ok v => s!"v {toHex v}"
+        | .error (.missing h used) => s!"exn missing {toHex h} {pathStr used}"
+        | .error _ => "exn invalid")
+    | none => bad
   | "rawop", [r, k, v] =>
     match ofHex r, ofHex k with
     | some r, some k =>
